@@ -18,8 +18,12 @@ def processLine (line : String) : String :=
       match res with
       | "BADLINE" :: _ => "ERR harness rejected the line"
       | _ =>
-        match h args res with
-        | .ok v => v.render
+        -- aliasing monitor of the harness: an input expression printed differently after the operation
+        let mutated := res.getLast? == some "!!input-mutated"
+        let res' := if mutated then res.dropLast else res
+        match h args res' with
+        | .ok v =>
+          (if mutated then { v with oracle := some "the operation modified a value it was given (aliasing)" } else v).render
         | .error e => s!"ERR {e}"
 
 partial def loop (i o : IO.FS.Stream) : IO Unit := do
